@@ -460,7 +460,7 @@ impl<'a> Gen<'a> {
             if nested || !self.f.loops || pure { 0 } else { 3 },          // 5 begin loops
             if nested || !self.f.case { 0 } else { 2 },                   // 6 case
             if top_level && self.f.defs { 4 } else { 0 },                 // 7 definition
-            if self.f.defs && !pure { 4 } else { 0 },                     // 8 call
+            if self.f.defs { if pure { 1 } else { 4 } } else { 0 },       // 8 call (at build time too)
             if top_level && self.f.vars { 4 } else { 0 },                 // 9 var definition
             if self.f.vars && !pure { 5 } else { 0 },                     // 10 var load/store
             if self.f.vecs { 5 } else { 0 },                              // 11 vector ops
@@ -1533,7 +1533,7 @@ impl<'a> Gen<'a> {
     fn computed_bits(&mut self) {
         match self.rng.below(5) {
             0 => self.emits(&["[", "1", "2", "3", "]", ">bitstr"]),
-            1 => self.emits(&["\"aabbccdd\"", "hex>bitstr"]),
+            1 => self.emits(&["\"414243444546\"", "hex>bitstr"]),
             2 => self.emits(&["[", "17", "34", "51", "68", "85", "]", ">bitstr"]),
             3 => self.emits(&["0x0102030405", "40", "uint!"]),
             _ => self.emits(&["[", "255", "255", "255", "]", ">bitstr"]),
@@ -1579,6 +1579,14 @@ impl<'a> Gen<'a> {
                 self.emit("bitstr-not");
                 self.push(Ty::Bits);
             }
+            6 if self.f.strings => {
+                // exporters that may hand out the buffer instead of the value
+                let w = *self.rng.pick(&["bitstr>utf8", "bitstr>hex", "base64", "base32", "zero85"]);
+                self.emit(w);
+                self.pop();
+                self.push(Ty::Str);
+                return;
+            }
             _ => {}
         }
         if self.rng.chance(1, 2) {
@@ -1596,10 +1604,23 @@ impl<'a> Gen<'a> {
     fn immediate_def(&mut self) {
         let name = self.fresh("w");
         let lit = self.int_lit();
-        match self.rng.below(3) {
+        match self.rng.below(6) {
             0 => self.emits(&[":", &name, "immediate", &lit, ";"]),
             1 => self.emits(&[":", &name, &lit, "immediate", ";"]),
-            _ => self.emits(&[":", &name, "immediate", &lit, "1", "+", ";"]),
+            2 => self.emits(&[":", &name, "immediate", &lit, "1", "+", ";"]),
+            // build-time effects other than a push (none of them looks at the data stack, which a
+            // user immediate sees under eval and not under compile: DESIGN §8.8)
+            3 if self.f.emit && self.f.bits => self.emits(&[":", &name, "immediate", "|58 45|", "emit", &lit, ";"]),
+            4 if self.f.print => self.emits(&[":", &name, "immediate", "\"i\"", "print", &lit, ";"]),
+            5 if self.f.vars && !self.env.vars.is_empty() => {
+                let v = self.rng.pick(&self.env.vars).clone();
+                if v.ty == Ty::Int {
+                    self.emits(&[":", &name, "immediate", &lit, "!", &v.name, &lit, ";"]);
+                } else {
+                    self.emits(&[":", &name, "immediate", &lit, ";"]);
+                }
+            }
+            _ => self.emits(&[":", &name, "immediate", &lit, "2", "*", ";"]),
         }
         // used at top level straight away; the value it pushes at build time stays on the stack
         if self.rng.chance(2, 3) {
